@@ -359,14 +359,18 @@ CHECKS["C08"] = {
         H("c09.VH_udp", {"params": {"KIND": 2, "DGRAMS": 2, "CLIENTS": 2}, "race": True}, {"params": {"KIND": 2, "DGRAMS": 3, "CLIENTS": 2}, "race": True, "preempt": 1}, variant="race", covers=["served"], weight=3, **_envonly),
         H("c11.VH_relay", {"params": {"PEERS": 2, "BL": 2, "DL": 2, "UPL": 2}, "race": True}, {"params": {"PEERS": 2, "BL": 2, "DL": 2, "UPL": 2}, "race": True, "preempt": 1}, variant="race", covers=["relayed"], weight=4, **_envonly),
         H("c11.VH_failwindow", {"params": {}, "race": True}, {"params": {}, "race": True, "preempt": 1}, variant="race", covers=["queried"], weight=1, **_envonly),
+        H("c01.VH_step_tee", {"params": {"MAXB": 600}, "race": True}, {"params": {"MAXB": 3000}, "race": True}, variant="race", covers=["recorder ran"], weight=3, **_envonly),
+        H("c11.VH_retry", {"params": {}, "race": True}, {"params": {}, "race": True, "preempt": 1}, variant="race", covers=["gave up"], weight=1, **_envonly),
+        H("c11.VH_maxconn", {"params": {}, "race": True}, {"params": {}, "race": True, "preempt": 1}, variant="race", covers=["probed while proxying"], weight=1, **_envonly),
+        H("c17.VH_throttle", {"params": {"CFG": 3, "READS": 2, "CONNS": 2, "SIZES": 2, "L": 200}, "race": True}, {"params": {"CFG": 3, "READS": 2, "CONNS": 2, "SIZES": 3, "L": 320}, "race": True}, variant="race", covers=["throttled"], weight=2, validate=False, native_replay=False, env_only=True),
         H("c08.VH_select", {"params": {}, "race": True}, {"params": {}, "race": True, "preempt": 1}, covers=["selected concurrently"], weight=2, **_envonly),
         H("c08.VH_router", {"params": {"L": 3}, "race": True}, {"params": {"L": 3}, "race": True, "preempt": 1}, covers=["routed concurrently"], weight=3, **_envonly),
     ],
-    "level_text": "cross-talk half only: bounded model checking of pooled matching-buffer lifetime - two or three connections go through the listener wrapper, the first one is handed over (its prefetched bytes still unread) before the next one takes a buffer from the pool and prefetches; every delivered connection must read exactly its own client's bytes. The tee branch/main-chain pair is checked the same way (each reads the whole stream once). The data-race half of the property is NOT decided",
-    "level_note": "data races (plain accesses under the real scheduler) are outside a symbolic executor that pre-empts only at synchronisation operations and assumes data-race freedom elsewhere; see DESIGN section 5 C08. One race (round_robin's plain read of its atomic counter) was found by reading and repaired",
-    "assumptions": ["sync.Pool: Get returns the last Put object (quick) / any pooled object or a fresh one (thorough)"],
-    "outside": ["data races", "more than 3 simultaneous connections", "Server.handle (non-listener) with a tee branch outliving the handler"],
-    "bounds": {"quick": "2 connections", "thorough": "3 connections, adversarial pool"},
+    "level_text": "bounded model checking in the engine's goroutine mode. (a) Cross-talk: pooled matching-buffer lifetime - two or three connections go through the listener wrapper, one is handed over (its prefetched bytes still unread, or after a consuming handler wrapped it) before the next one takes a buffer from the pool; every delivered connection must read exactly its own client's bytes; one prefetch step from any state must not leave the connection's buffer aliasing a chunk that is back in the pool; the tee branch/main chain each read the whole stream once; two connections evaluated at the same time by ONE provisioned matcher / compiled route list get the verdicts a private instance gives each stream alone. (b) Data races: happens-before race detection over the interpreted program (engine/race.go: vector clocks; edges from go, channel send/receive/close, Mutex/RWMutex, WaitGroup, Once, sync.Pool, every sync/atomic operation, timers; plain loads/stores, map operations and copy/append byte ranges checked against the last conflicting accesses; symbolic byte ranges compared by the solver) on symbolic inputs: two goroutines through every matcher (13), the compiled router, every selection policy with a third goroutine updating peer counters, the listener wrapper, the UDP server, the proxy relay with two peers, retries, max_connections, passive failure window, tee and throttle. A reported race is replayed under `go test -race` and must be reported by the Go race detector at the same source lines",
+    "level_note": "race detection is schedule-insensitive for the accesses a path performs (two unordered conflicting accesses are reported whatever order the engine ran them in), but it only sees the accesses of the explored paths: streams within the per-matcher bounds, two connections, the configurations listed; happens-before is over-approximated where the model is simplified (release joins, all earlier receives order a later send), so races may be missed but a reported one is a race under the Go memory model; only accesses attributed to repository code are reported (third-party libraries' internals - x/time/rate, go-socks5, zap - are not judged); three races were found this way and repaired (round_robin counter - first found by reading, openvpn lastDigest, Connection byte counters)",
+    "assumptions": ["sync.Pool: Get returns the last Put object (quick) / any pooled object or a fresh one (thorough)", "sync/atomic operations are sequentially consistent and synchronise (Go memory model)", "the harness's own bookkeeping is excluded from race reports"],
+    "outside": ["more than 2-3 simultaneous connections", "races inside third-party libraries and net/http", "accesses on paths outside the bounds (long streams, configurations not listed)", "Server.handle (non-listener) with a tee branch outliving the handler", "processor counts (the happens-before relation does not depend on them)"],
+    "bounds": {"quick": "2 goroutines per harness (3 for selection policies), streams within the C06 per-matcher bounds, cooperative schedules (+1 pre-emption for the independent-stream variants)", "thorough": "3 connections for the listener, adversarial pool, +1-2 pre-emptions"},
 }
 CHECKS["C09"] = {
     "harnesses": [
